@@ -8,7 +8,7 @@ D=$(mktemp -d /tmp/c14buf-mut.XXXXXX)
 trap 'rm -rf "$D"' EXIT
 F="$D/g/src/ring/buffered.go"
 gen() { rm -rf "$D/g"; ./bin/mcgen -noconc -add ring=/verif/checks/c14buffered/access.go.txt -out "$D/g" github.com/dapr/kit/ring; }
-runit() { echo "== $1"; VERIF_ROOT="$D/root" go test -tags unit -overlay "$D/g/overlay.json" -vet=off ./checks/c14buffered -run TestCheck -v -args -tier quick 2>&1 | grep -v "^ok\|^FAIL\|^---\|^PASS\|^=== RUN\|^exit status" | cut -c1-400 | head -${2:-9}; }
+runit() { echo "== $1"; VERIF_ROOT="$D/root" go test -tags unit -overlay "$D/g/overlay.json" -vet=off ./checks/c14buffered -run TestCheck -v -args -tier quick 2>&1 | grep -v "^ok\|^FAIL\|^---\|^PASS\|^=== RUN\|^exit status" | cut -c1-400 | awk '/^FINDING/{k=$0; getline m; n[k]++; if(n[k]==1) first[k]=m; next} {print} END{for(k in n) print k " x" n[k] "\n" first[k]}'; }
 changed() { cmp -s "$F" "$D/orig.go" && { echo "mutation did not apply"; exit 2; } || true; }
 
 gen; cp "$F" "$D/orig.go"
